@@ -173,6 +173,9 @@ def make(prop, theorems, *, model_notes=None, refuted_full=None, driver_exe=None
         for ops, obs in getattr(corr, "runs", []):
             consider(ops, obs)
         extra = []
+        if prop == "C05":
+            # search-only: pedal itself failing while it stores the captured output (not a step of the model)
+            extra += sx.store_failure_histories(rng)
         if broken or not getattr(corr, "runs", None):
             sx.warm_up()
             extra += sx.coverage_histories(rng)
